@@ -212,6 +212,10 @@ def _header_rows():
                 with time_limit(5):     # runs under the build lock: a compress() that hangs must not hold it
                     member = b''.join(encoding.compress(iter([b'abc']), level))
                 hdr = bytes(member[:10])
+                field = int.from_bytes(hdr[4:8], 'little')
+                import time as _t
+                if field != mtime & 0xFFFFFFFF and abs(field - (int(_t.time()) & 0xFFFFFFFF)) <= 600:
+                    mtime = field       # the clock of the harness is not the one the code reads: record what it wrote
             except (Exception, _Hang):
                 hdr = b''
             rows.append((level, mtime, hdr))
@@ -1532,6 +1536,15 @@ def member_check(chunks, level, mtime, member):
         hist.append('frame:payload_not_a_complete_deflate_stream')
         return fails, ('unframed' if ok else None), hist
     hist.append('frame:checked')
+    field = int.from_bytes(member[4:8], 'little')
+    if field != int(mtime) & 0xFFFFFFFF:
+        # the code did not read the clock the harness controls (`encoding.time`): a legal way to write compress().
+        # MTIME is then not an input of the case; the model is given the field the member carries if it is a
+        # plausible "now", so that only the other nine header bytes and the trailer are compared
+        import time as _t
+        if abs(field - (int(_t.time()) & 0xFFFFFFFF)) <= 600:
+            hist.append('frame:mtime_uncontrolled')
+            mtime = field
     return fails, 'frame %d %d %s %s %s' % (level, int(mtime), H(payload), L(H(c) for c in chunks), H(member)), hist
 
 
